@@ -291,7 +291,7 @@ def script_rules(s, case, fn=FN):
     if sched["type"] == "par":
         n_stuck_to = sum(1 for j, k in enumerate(K) if CLASS[k] == "stuck" and case["replies"][str(j)]["first"]["kind"] == "timeout")
         n_stuck = sum(1 for k in K if CLASS[k] == "stuck")
-        base = 130 + 45 * n_stuck + 750 * n_stuck_to
+        base = 150 + 110 * n_stuck + 750 * n_stuck_to
         prev = None
         for p in sched["perm"]:
             rep = case["replies"][str(p)]
@@ -388,10 +388,29 @@ def realized(case, obs):
         ts = [done[q] for q in finals if q in done]
         if ts != sorted(ts):
             return False
-        if not case["early"] and len(ts) != len(finals):
-            return False
-        stuck_done = [done.get(f"{FN}/{j}") or start.get(f"{FN}/{j}", 0) + 0.7 for j, k in enumerate(K) if CLASS[k] == "stuck" and f"{FN}/{j}" in start]
-        if ts and stuck_done and min(ts) < max(stuck_done):
+        def valid_cex(p):
+            rep = case["replies"][str(p)]
+            f = rep["first"]["kind"]
+            return f in ("sat", "sat_rc") or (f == "sat_abstract" and ref and rep["second"]["kind"] in ("sat", "sat_rc"))
+
+        will_shut_down = case["early"] and any(valid_cex(p) for p in s["perm"])
+        if not will_shut_down and len(ts) != len(finals):
+            return False   # some query that should have answered did not (e.g. it hit halmos' timeout)
+        # the exploration (with its synchronous stuck confirmations) was over before the first potential query answered
+        stuck_done = []
+        for j, k in enumerate(K):
+            if CLASS[k] != "stuck":
+                continue
+            q = f"{FN}/{j}"
+            if case["replies"][str(j)]["first"]["kind"] == "timeout":
+                if q not in start:
+                    return False
+                stuck_done.append(start[q] + 0.6)
+            elif q not in done:
+                return False   # never submitted (ShutdownError) or killed: an early exit raced with the exploration
+            else:
+                stuck_done.append(done[q])
+        if ts and stuck_done and min(ts) < max(stuck_done) + 0.01:
             return False
         return True
     if s["type"] == "race":
